@@ -188,8 +188,11 @@ def run_property(modname: str, tier: str) -> int:
                 harness_errors.append(f"witness did not reproduce: {v['key']} args={json.dumps(v['args'])[:300]}")
 
         extra: Dict[str, Any] = {}
+        extra_wall = 0.0
         if hasattr(mod, "extra_checks"):
+            t_extra = time.time()
             extra = mod.extra_checks(tier) or {}
+            extra_wall = round(time.time() - t_extra, 2)
             for v in extra.get("violations", []):
                 confirmed.append({"key": v["key"], "msg": v.get("msg", ""), "args": v.get("args"),
                                   "replayed_key": v["key"], "replayed_msg": v.get("msg", ""), "shard": "extra",
@@ -257,6 +260,7 @@ def run_property(modname: str, tier: str) -> int:
             "exploratory_shards": {"count": len(expl), "exhausted": sum(1 for r in expl if r.get("exhausted")),
                                    "meaning": "shards beyond the exhaustively claimed bound; 'exhaustive' above does not "
                                               "cover them, they only add explored paths"},
+            "non_sx_part_wall_s": extra_wall,
             "tier_wall_cap": {"seconds": cap, "shards_stopped_by_it": sum(1 for r in results if r.get("stopped_by") == "tier-wall-cap")},
             "violating_path_classes": {k: sum(int((r.get("violation_keys") or {}).get(k, 0)) for r in results)
                                        for k in by_key},
